@@ -151,7 +151,7 @@ def main():
         only = sys.argv[sys.argv.index("--only") + 1]
         args = [a for a in args if a != only]
     keep = "--keep" in sys.argv
-    pids = args or sorted(f[:-5] for f in os.listdir(os.path.join(VERIF, "mutants")) if f.endswith(".json"))
+    pids = args or sorted(f[:-5] for f in os.listdir(os.path.join(VERIF, "mutants")) if f.endswith(".json") and f != "benign.json")
     bad = 0
     for pid in pids:
         for r in run_property(pid, only, keep):
